@@ -232,31 +232,44 @@ Lemma propose_le (s : sys) m cs ch p :
   count_pool p (propose s m cs ch) <= mapping_of s (method_reason m) p.
 Proof.
   pose proof (mapping_of_nonneg s (method_reason m)) as Hn.
-  unfold Model.propose. destruct m.
-  - apply emptiness_select_le, Hn.
-  - destruct ch as [k|groups]; [rewrite count_pool_nil; apply Hn|].
-    destruct (nodup_ids (map fst groups)) eqn:End; [|rewrite count_pool_nil; apply Hn].
-    pose proof (static_groups_le _ (s_pools s) cs groups p Hn End) as H.
-    specialize (Hn p). destruct (existsb (Z.eqb p) (map fst groups)); lia.
-  - apply one_if_budget_le, Hn.
-  - destruct ch as [k|groups]; [apply multi_select_le, Hn|rewrite count_pool_nil; apply Hn].
-  - apply one_if_budget_le, Hn.
+  unfold Model.propose. destruct ch as [k|groups|].
+  - destruct m.
+    + apply emptiness_select_le, Hn.
+    + rewrite count_pool_nil; apply Hn.
+    + apply one_if_budget_le, Hn.
+    + apply multi_select_le, Hn.
+    + apply one_if_budget_le, Hn.
+  - destruct m.
+    + apply emptiness_select_le, Hn.
+    + destruct (nodup_ids (map fst groups)) eqn:End; [|rewrite count_pool_nil; apply Hn].
+      pose proof (static_groups_le _ (s_pools s) cs groups p Hn End) as H.
+      specialize (Hn p). destruct (existsb (Z.eqb p) (map fst groups)); lia.
+    + apply one_if_budget_le, Hn.
+    + rewrite count_pool_nil; apply Hn.
+    + apply one_if_budget_le, Hn.
+  - destruct m; rewrite count_pool_nil; apply Hn.
 Qed.
 
 Lemma propose_incl (s : sys) m cs ch c : In c (propose s m cs ch) -> In c cs.
 Proof.
   pose proof (mapping_of_nonneg s (method_reason m)) as Hn.
-  unfold Model.propose. destruct m.
-  - apply take_incl, Hn.
-  - destruct ch as [k|groups]; [intros []|].
-    destruct (nodup_ids (map fst groups)); [|intros []].
-    intros H. apply in_flat_map in H. destruct H as (g & _ & Hc).
-    destruct (find_pool (s_pools s) (fst g)); [|destruct Hc].
-    apply static_drift_pool_incl in Hc. apply (cands_of_pool_pool _ _ _ Hc).
-  - apply one_if_budget_incl.
-  - destruct ch as [k|groups]; [|intros []].
-    unfold multi_select, multi_prefilter. intros H. apply firstn_In in H. apply (take_incl _ _ _ _ Hn H).
-  - apply one_if_budget_incl.
+  unfold Model.propose. destruct ch as [k|groups|].
+  - destruct m.
+    + apply take_incl, Hn.
+    + intros [].
+    + apply one_if_budget_incl.
+    + unfold multi_select, multi_prefilter. intros H. apply firstn_In in H. apply (take_incl _ _ _ _ Hn H).
+    + apply one_if_budget_incl.
+  - destruct m.
+    + apply take_incl, Hn.
+    + destruct (nodup_ids (map fst groups)); [|intros []].
+      intros H. apply in_flat_map in H. destruct H as (g & _ & Hc).
+      destruct (find_pool (s_pools s) (fst g)); [|destruct Hc].
+      apply static_drift_pool_incl in Hc. apply (cands_of_pool_pool _ _ _ Hc).
+    + apply one_if_budget_incl.
+    + intros [].
+    + apply one_if_budget_incl.
+  - destruct m; intros [].
 Qed.
 
 (* ---- validators ---- *)
@@ -512,7 +525,7 @@ Qed.
 
 Lemma inv_step (s : sys) o : inv s -> inv (step s o).
 Proof.
-  intros Hi. destruct o as [e|m cs ch vok b1 c1 b2 c2|ids ok|]; unfold Model.step.
+  intros Hi. destruct o as [e|m cs ch vok b1 c1 b2 c2 sf|ids ok|]; unfold Model.step.
   - apply inv_env, Hi.
   - pose proof (disrupt_sel_inv s m cs ch vok b1 c1 b2 c2 Hi) as H.
     destruct (disrupt_sel s m cs ch vok b1 c1 b2 c2) as [sel sv]. apply inv_start. exact H.
@@ -561,7 +574,7 @@ Qed.
 (* what holds at every step of every history *)
 Definition step_ok (s : sys) (o : op sid) : Prop :=
   match o with
-  | ODisrupt m cs ch vok b1 c1 b2 c2 =>
+  | ODisrupt m cs ch vok b1 c1 b2 c2 _ =>
       let '(sel, sv) := disrupt_sel s m cs ch vok b1 c1 b2 c2 in
       (budgets_ok sv -> round_holds sv (method_reason m) sel) /\
       (forall c, In c sel ->
@@ -582,7 +595,7 @@ Proof.
   revert s0. induction ops as [|o t IH]; intros s Hi; simpl; [split; [exact I|exact Hi]|].
   destruct (IH (step s o) (inv_step s o Hi)) as (Ht & Hr).
   split; [|exact Hr]. split; [|exact Ht].
-  destruct o as [e|m cs ch vok b1 c1 b2 c2|ids ok|]; simpl; try exact I.
+  destruct o as [e|m cs ch vok b1 c1 b2 c2 sf|ids ok|]; simpl; try exact I.
   pose proof (round_within_budget_l s m cs ch vok b1 c1 b2 c2) as Hround.
   pose proof (fun p => disrupt_sel_le s m cs ch vok b1 c1 b2 c2 p) as Hle.
   pose proof (disrupt_sel_inv s m cs ch vok b1 c1 b2 c2 Hi) as Hinv.
